@@ -49,6 +49,9 @@ if [ -n "$FAKE_PAUSE_AT" ]; then
   if [ "$FAKE_KILL" = "parent" ]; then sleep 0.05; kill -9 $PPID; fi
   exit ${FAKE_EXIT:-0}
 fi
+# FAKE_IGNORE_WERR=1: a disassembler that does not check what becomes of its output (as go tool objdump: it flushes
+# and ignores the result) - used only with faults that cannot hit a pipe (file size limit, full cache file system)
+if [ -n "$FAKE_IGNORE_WERR" ]; then trap '' 25; cat "$FAKE_LISTING" 2>/dev/null; exit 0; fi
 # a write error of its own (injected by the harness) makes it fail like any tool that checks its output
 if [ -n "$FAKE_CUT" ]; then head -c "$FAKE_CUT" "$FAKE_LISTING" || exit 1; else cat "$FAKE_LISTING" || exit 1; fi
 if [ "$FAKE_KILL" = "self" ]; then kill -9 $$; fi
